@@ -251,7 +251,7 @@ def eval_case(case, scales_list, want_detail=False):
     dim = len(case["sub"])
     res = dict(failures=[], nontrivial=False, rs_checked=0, sig=gen.case_signature(case), evals=0)
     try:
-        r = implrun.run(case, names=("H_tilde",))
+        r = run_blocks(case) if case.get("blocks_as") else implrun.run(case, names=("H_tilde",))
     except Exception as e:  # a well-posed Hermitian problem must be answered
         res["failures"].append(dict(
             what="block_diagonalize raised %s on a well-posed Hermitian input" % type(e).__name__,
@@ -313,6 +313,107 @@ def eval_case(case, scales_list, want_detail=False):
                         input=dict(kind="rs", case=case, scales=[scales], state=i),
                         expected=fmt_poly([Ed[i]] + [rec[n] for n in range(1, N + 1)]), observed=fmt_poly(diag)))
     return res
+
+
+def run_blocks(case):
+    """Like implrun.run (H_tilde only), but the Hamiltonian is handed to block_diagonalize ALREADY SEPARATED INTO
+    BLOCKS whose values are scipy.sparse *matrix* objects (csr_matrix / coo_matrix: `*` is the matrix product):
+    case["blocks_as"] = dict(form="nested" | "blockseries", conv="csr_matrix" | "coo_matrix").
+      nested      : {order: [[block_00, block_01, ...], ...]} (a list per order in the one-parameter first-order case)
+      blockseries : pymablock.series.BlockSeries(data={(i, j, *order): block}, shape=(nb, nb))
+    No subspace_indices are passed; everything is in the block-ordered basis."""
+    import warnings
+    import numpy as np
+    import scipy.sparse as sp
+    from harness import implrun
+    from pymablock import block_diagonalize
+    from pymablock.series import BlockSeries
+    pres = case["blocks_as"]
+    conv = {"csr_matrix": sp.csr_matrix, "coo_matrix": sp.coo_matrix}[pres["conv"]]
+    nb, sizes, perm, offs = implrun.layout(case)
+    nparam = case["nparam"]
+    dim = len(case["sub"])
+    full = {gen.unkey(k): implrun.permuted(gq.dec(M), perm) for k, M in case["H"].items()}
+
+    def block(M, i, j):
+        sub = [[M[offs[i] + a][offs[j] + b] for b in range(sizes[j])] for a in range(sizes[i])]
+        return conv(implrun.to_numpy(sub))
+
+    if pres["form"] == "nested":
+        H = {n: [[block(M, i, j) for j in range(nb)] for i in range(nb)] for n, M in full.items()}
+        first_order_only = nparam == 1 and set(H) <= {(0,), (1,)} and (1,) in H
+        if first_order_only and pres.get("as_list", True):
+            H = [H[(0,)], H[(1,)]]
+    else:
+        data = {}
+        for n, M in full.items():
+            for i in range(nb):
+                for j in range(nb):
+                    if sum(n) == 0 and i != j:
+                        continue
+                    data[(i, j) + tuple(n)] = block(M, i, j)
+        H = BlockSeries(data=data, shape=(nb, nb), n_infinite=nparam)
+    kw = dict(fully_diagonalize=implrun.build_fully(case), hermitian=True)
+    with warnings.catch_warnings():
+        warnings.simplefilter("ignore")
+        res = block_diagonalize(H, **kw)
+        S = res[0]
+        ser = gq.Series(dim, nparam)
+        for n in gq.orders_upto(nparam, case["N"]):
+            M = gq.zeros(dim)
+            nz = False
+            for i in range(nb):
+                for j in range(nb):
+                    v = S[(i, j) + tuple(n)]
+                    if isinstance(v, np.matrix):
+                        v = np.asarray(v)
+                    B = implrun.from_value(v, (sizes[i], sizes[j]))
+                    for a in range(sizes[i]):
+                        for b in range(sizes[j]):
+                            if not B[a][b].is_zero():
+                                nz = True
+                            M[offs[i] + a][offs[j] + b] = B[a][b]
+            if nz:
+                ser.d[tuple(n)] = M
+    Hs = gq.Series(dim, nparam, full)
+    return dict(out={"H_tilde": ser}, H=Hs, layout=(nb, sizes, perm, offs))
+
+
+def spmatrix_blocks_case(rng, N, max_params=2):
+    """Exact-float problem presented as separate scipy.sparse csr_matrix / coo_matrix blocks (nested lists per order
+    or a BlockSeries), fully_diagonalize in tuple form over one or all blocks, at least one fully diagonalised
+    block with two or more states."""
+    for _ in range(2000):
+        if rng.random() < 0.3:
+            case = unsorted_degenerate_case(rng, N, "exact", max_params=max_params)
+        else:
+            case = gen.random_case(rng, hermitian=True, N=N, fmt="sparse", max_blocks=3, max_size=3,
+                                   max_params=max_params, allow_mask=False)
+        if h0_is_zero(case):
+            continue
+        nb = max(case["sub"]) + 1
+        f = case["fully"]
+        if f is None:
+            if nb > 1 and rng.random() < 0.8:
+                f = list(range(nb)) if rng.random() < 0.5 else [rng.randrange(nb)]
+            elif nb == 1:
+                f = [0]
+            else:
+                continue
+        if not isinstance(f, list):
+            continue
+        if rng.random() < 0.4:
+            f = list(range(nb))
+        sizes = [sum(1 for x in case["sub"] if x == b) for b in range(nb)]
+        if not any(sizes[b] >= 2 for b in f):
+            continue
+        case["fully"] = sorted(f)
+        case["fmt"] = "sparse"
+        case.pop("present", None)  # (key of the shared generator for SymPy expression input; not applicable here)
+        case["blocks_as"] = dict(form=rng.choice(["nested", "blockseries"]),
+                               conv=rng.choice(["csr_matrix", "csr_matrix", "coo_matrix"]))
+        return case
+    raise RuntimeError("generator could not produce an spmatrix-blocks case")
 
 
 def _worker(job):
@@ -483,16 +584,19 @@ def unsorted_degenerate_case(rng, N, family, cplx=None, max_extra=3, max_params=
 
 
 def make_cases(rng, count, Ns, max_blocks=3, max_size=3, max_params=2, scales_per_case=2, full_scales=False):
-    """Per 10 cases: 4 general, 3 partial-mask cases at N >= 3 (first place where the diagonal "Yadj" term
-    matters), 3 unsorted-degenerate numerical H_0 cases (alternating exact-float / generic float)."""
+    """Per 10 cases: 3 general, 3 partial-mask cases at N >= 3 (first place where the diagonal "Yadj" term
+    matters), 2 unsorted-degenerate numerical H_0 cases (alternating exact-float / generic float), 2 cases
+    presented as separate scipy.sparse csr_matrix / coo_matrix blocks (nested lists or BlockSeries)."""
     jobs = []
-    pattern = ["any", "partial-mask", "unsorted-degenerate", "any", "partial-mask",
-               "unsorted-degenerate", "any", "partial-mask", "unsorted-degenerate", "any"]
+    pattern = ["any", "partial-mask", "unsorted-degenerate", "spmatrix-blocks", "any", "partial-mask",
+               "unsorted-degenerate", "spmatrix-blocks", "partial-mask", "any"]
     nud = 0
     for k in range(count):
         N = Ns[k % len(Ns)]
         focus = pattern[k % len(pattern)]
-        if focus == "unsorted-degenerate":
+        if focus == "spmatrix-blocks":
+            case = spmatrix_blocks_case(rng, min(N, 3), max_params=max_params)
+        elif focus == "unsorted-degenerate":
             nud += 1
             case = unsorted_degenerate_case(rng, min(N, 3), "exact" if nud % 2 else "float", max_params=max_params)
         else:
@@ -533,9 +637,15 @@ def summarise(jobs, results, rule_extra=""):
             dist["family=generic-float(toleranced)"] = dist.get("family=generic-float(toleranced)", 0) + 1
         if is_unsorted_degenerate(case):
             dist["unsorted-degenerate-H0"] = dist.get("unsorted-degenerate-H0", 0) + 1
+        if case.get("blocks_as"):
+            kk = "presentation=%s/%s" % (case["blocks_as"]["form"], case["blocks_as"]["conv"])
+            dist[kk] = dist.get(kk, 0) + 1
         if r["nontrivial"]:
             seen.add(core.sha(core.canon(case)))
         failures += r["failures"]
+    # wrong values first (more informative replay), then exceptions
+    rank = {"charpoly": 0, "rs": 1, "exception": 2, "crash": 3}
+    failures.sort(key=lambda f: rank.get((f.get("input") or {}).get("kind"), 4))
     return dict(
         evaluations=evals, nontrivial=len(seen),
         rule="distinct case hashes with dim >= 2 whose H_tilde has a non-zero term of total order >= 2; "
